@@ -17,18 +17,18 @@ NA = {
 CHECKS = {
  "C02": ("exploration",
    "Seeded allocation-rich programs (strings, tables, rows, closures with captured variables, function values, stdlib with script callbacks, allocating and re-entering host stubs) run under collector schedules the simulator decides through the production threshold branch: a collection at every allocation point, at each single allocation point (all of them up to a cap per program), every k-th, random subsets, and the natural schedule under small limits. Oracles: heap audits over a quarantine of swept objects (no reachable object is swept: immediately after each collection, at the next instruction boundary, at host returns, at run end), equality of the observable outcome with the collection-free run, and the same again with real frees. Sampling in programs; per program the single-point schedules are exhaustive up to the cap.",
-   "Root set per the property text (stack, globals, active frames' closures, open upvalues, guarded objects, arguments of the running host function); popped operands of plain instructions are not roots. Closures capture only in main (frame offset 0) to stay clear of the C06 frame-offset defect. Host natives are stubs.",
+   "Root set per the property text (stack, globals, active frames' closures, guarded objects, arguments of the running host function); upvalues are reached through the closures that use them and their location is followed wherever it points inside the value stack's memory; popped operands of plain instructions are not roots. A collection-free reference run that ends in OutOfMemory or Timeout, or has more than 20000 allocation points, is discarded. Closures capture only in main (frame offset 0) to stay clear of the C06 frame-offset defect. Host natives are stubs.",
    "deterministic simulation: seeded programs x controlled collector schedules (forced through the production threshold), quarantine heap audit + differential observation"),
  "C03": ("fault_enumeration",
-   "The VM's clock is its instruction budget. Seeded programs with busy work / endless loops reached through 1-3 levels of host re-entry, __sort/__min key functions, std.map callbacks and plain calls (plus G-alloc programs); the budget N is swept over every value 1..T+2 (seeded subset above a cap) and boundary values, with a controller that counts every dispatch of every nested activation and unwinds at N+1. Oracles: dispatched <= N; N < T implies Timeout; N > T leaves the outcome unchanged; non-terminating programs always time out.",
+   "The VM's clock is its instruction budget. Seeded programs with busy work / endless loops reached through 1-3 levels of host re-entry (call0 by card, call0 as a native function value, try0 that swallows its callee's failure), __sort/__min key functions, std.map callbacks and plain calls (plus G-alloc programs); the budget N is swept over every value 1..T+2 (seeded subset above a cap) and boundary values, with a controller that counts every dispatch of every nested activation and unwinds at N+1. Oracles: dispatched <= N; N < T implies Timeout; N > T leaves the outcome unchanged; non-terminating programs always time out.",
    "T is measured by a dry run under an observer cap of 30000 instructions; N == T may go either way; Timeout may be wrapped in TaskFailure; budget 0 belongs to C04.",
    "deterministic simulation: instruction-budget (clock) sweep per program with a global dispatch counter across nested activations"),
  "C12": ("fault_enumeration",
-   "Seeded operation histories over hash-controlled keys (home-slot collisions on the growth path, wrap-around, full 32-bit collisions, reserved hash 0) on the real CaoHashMap against a BTreeMap model after every operation, drop-exactly-once for keys and values, allocation ledger; per history the allocation-failure position is swept exhaustively over every allocation made inside a fallible operation; three allocators. Sampling in the history dimension, exhaustive in the fault position.",
+   "Seeded operation histories over hash-controlled keys (home-slot collisions on the growth path, wrap-around, full 32-bit collisions, reserved hash 0) on the real CaoHashMap against a BTreeMap model after every operation, drop-exactly-once for keys and values, allocation ledger; per history the allocation-failure position is swept exhaustively over every allocation made inside a fallible operation, once with drop-counting element types and once with element types without drop glue (what the VM's own Value/Value tables use); three allocators. Sampling in the history dimension, exhaustive in the fault position.",
    "Trusts the harness' FaultAlloc ledger and drop-counting element types; clone()/Default are not fault-injected (cannot report failure); after an injected failure the failed insert's key may be present or absent; H7 step bound defines non-termination.",
    "deterministic simulation: seeded operation histories x exhaustive fail-at-j allocation faults, reference-model oracle"),
  "C13": ("fault_enumeration",
-   "Seeded operation histories (colliding / wrapping handles, every initial capacity, every insertion path) on the real HandleTable against a BTreeMap model after every operation; per history the allocation-failure position is swept exhaustively over every allocation made inside a fallible operation; three allocators. Sampling in the history dimension, exhaustive in the fault position: a clean batch is evidence, not proof.",
+   "Seeded operation histories (colliding / wrapping handles, every initial capacity, every insertion path) on the real HandleTable against a BTreeMap model after every operation; per history the allocation-failure position is swept exhaustively over every allocation made inside a fallible operation; three allocators; every history also runs with a value type without drop glue. Sampling in the history dimension, exhaustive in the fault position: a clean batch is evidence, not proof.",
    "Trusts the harness' FaultAlloc ledger and drop-counting value type; entry()/clone() are not fault-injected because their signatures cannot report failure; probe-loop step bound of hook H7 defines non-termination.",
    "deterministic simulation: seeded operation histories x exhaustive fail-at-j allocation faults, reference-model oracle"),
 }
